@@ -36,6 +36,7 @@ struct Ctl {
     hold_seen: usize,
     hold_parked: bool,
     hold_released: bool,
+    sync_kind: u64, // textDocumentSync announced by the server: 1 full (or unknown), 2 incremental
 }
 
 struct Shared {
@@ -291,7 +292,11 @@ pub fn session_item(item: &Value) -> Value {
             // log first, count afterwards: "Quiet" must never be logged before the response that made it true
             let is_resp = ev["ev"] == "Response" && ev["method"] != "initialize";
             if ev["ev"] == "Response" && ev["method"] == "initialize" {
-                sh_r.m.lock().unwrap().events.push(json!({"ev": "Initialized"}));
+                let sync = &msg["result"]["capabilities"]["textDocumentSync"];
+                let kind = sync.as_u64().or_else(|| sync.get("change").and_then(|c| c.as_u64())).unwrap_or(1);
+                let mut c = sh_r.m.lock().unwrap();
+                c.sync_kind = kind;
+                c.events.push(json!({"ev": "Initialized"}));
             } else {
                 sh_r.m.lock().unwrap().events.push(ev);
             }
@@ -379,6 +384,7 @@ pub fn session_item(item: &Value) -> Value {
     let controlled = !schedule.is_empty();
     let mut sched_pos = 0usize;
     let mut diverged: Option<Value> = None;
+    let mut doc_text: HashMap<String, String> = HashMap::new();     // what the editor holds for each open document
     for st in &steps {
         let op = jstr(st, "op");
         match op {
@@ -398,10 +404,31 @@ pub fn session_item(item: &Value) -> Value {
                 let msg = if op != "change" {
                     json!({"jsonrpc": "2.0", "method": "textDocument/didOpen", "params": {"textDocument":
                         {"uri": uri_of(&dir, file), "languageId": "tablegen", "version": v, "text": text}}})
+                } else if sh.m.lock().unwrap().sync_kind == 2 && doc_text.contains_key(file) {
+                    // the server asked for incremental sync: the same edit as two ranged changes of one notification, each relative
+                    // to the text after the previous one (insert two line breaks on top, then replace everything by the new text)
+                    let old = format!("\n\n{}", doc_text[file]);
+                    let mut line = 0u64;
+                    let mut last = 0usize;
+                    let ob = old.as_bytes();
+                    let mut i = 0usize;
+                    while i < ob.len() {
+                        if ob[i] == b'\n' || (ob[i] == b'\r' && !(i + 1 < ob.len() && ob[i + 1] == b'\n')) {
+                            line += 1;
+                            last = i + 1;
+                        }
+                        i += 1;
+                    }
+                    let col = old[last..].encode_utf16().count() as u64;
+                    json!({"jsonrpc": "2.0", "method": "textDocument/didChange", "params": {"textDocument":
+                        {"uri": uri_of(&dir, file), "version": v}, "contentChanges": [
+                            {"range": {"start": {"line": 0, "character": 0}, "end": {"line": 0, "character": 0}}, "text": "\n\n"},
+                            {"range": {"start": {"line": 0, "character": 0}, "end": {"line": line, "character": col}}, "text": text}]}})
                 } else {
                     json!({"jsonrpc": "2.0", "method": "textDocument/didChange", "params": {"textDocument":
                         {"uri": uri_of(&dir, file), "version": v}, "contentChanges": [{"text": text}]}})
                 };
+                doc_text.insert(file.to_string(), text.to_string());
                 sh.m.lock().unwrap().events.push(json!({"ev": if op != "change" {"Open"} else {"Change"}, "file": file, "v": v}));
                 rt.block_on(async {
                     let mut w = cli_w.lock().await;
